@@ -292,23 +292,36 @@ class SimFS:
 
     # ---- locks ---------------------------------------------------------------------
     def lock(self, path, owner):
+        """flock()-like: the lock belongs to the INODE the path names right now (created if missing), not to the path.
+        Returns the inode on success, None when somebody else holds it.  self.locks: id(inode) -> (inode, owner)."""
         path = self._norm(path)
         self._begin("lock", path)
         if path not in self.files:
             if posixpath.dirname(path) not in self.dirs:
                 raise FileNotFoundError(_errno.ENOENT, "No such file or directory", path)
             self.files[path] = Inode()
-        holder = self.locks.get(path)
-        if holder is not None and holder is not owner:
-            return False
-        self.locks[path] = owner
-        return True
+        ino = self.files[path]
+        held = self.locks.get(id(ino))
+        if held is not None and held[1] is not owner:
+            return None
+        self.locks[id(ino)] = (ino, owner)
+        return ino
 
-    def unlock(self, path, owner):
+    def unlock(self, path, owner, ino=None):
+        """Release the lock `owner` holds (on the inode it locked, wherever its path went).  A process that is
+        waiting for that lock (polling flock on the same, still existing file) gets it at once."""
         path = self._norm(path)
         self._begin("unlock", path)
-        if self.locks.get(path) is owner:
-            del self.locks[path]
+        for key, (i, o) in list(self.locks.items()):
+            if o is owner and (ino is None or i is ino):
+                del self.locks[key]
+                waiter = getattr(self, "lock_waiter", None)
+                if waiter is not None and self.files.get(waiter[0]) is i:
+                    # the waiter's next poll opens the same file and succeeds -- before the releasing process does
+                    # anything else
+                    self.lock_waiter = None
+                    self.locks[key] = (i, waiter[1])
+                    waiter[1]._granted = i
 
 
 # --------------------------------------------------------------------------- file objects
@@ -626,15 +639,23 @@ class FilelockShim:
                 if self.is_locked:
                     self._count += 1
                     return self
-                if not shim.fs.lock(self._lock_file, self):
-                    # somebody else holds it: while we wait (up to `timeout`), that somebody goes on working --
-                    # the check may have registered what it does meanwhile
+                ino = shim.fs.lock(self._lock_file, self)
+                if ino is None:
+                    # somebody else holds it: while we wait (up to `timeout`, polling), that somebody goes on
+                    # working -- the check may have registered what it does meanwhile
                     hook = getattr(shim.fs, "on_lock_contention", None)
                     if hook is not None:
                         shim.fs.on_lock_contention = None
-                        hook()
-                    if hook is None or not shim.fs.lock(self._lock_file, self):
+                        self._granted = None
+                        shim.fs.lock_waiter = (shim.fs._norm(self._lock_file), self)
+                        try:
+                            hook()
+                        finally:
+                            shim.fs.lock_waiter = None
+                        ino = self._granted or shim.fs.lock(self._lock_file, self)
+                    if ino is None:
                         raise SimTimeout(self._lock_file)
+                self._ino = ino
                 self._epoch = shim.fs.epoch
                 self._count = 1
                 return self
@@ -645,7 +666,7 @@ class FilelockShim:
                 shim.fs._check_epoch(self._epoch)
                 self._count = 0 if force else self._count - 1
                 if self._count == 0:
-                    shim.fs.unlock(self._lock_file, self)
+                    shim.fs.unlock(self._lock_file, self, getattr(self, "_ino", None))
 
             def __enter__(self):
                 self.acquire()
